@@ -150,6 +150,29 @@ func (in *Interp) unop(fr *frame, x *ssa.UnOp) Value {
 			return in.tt.BVNot(y)
 		}
 	case token.ARROW:
+		if ch, ok := v.(*Chan); ok && ch != nil && ch.timer != nil {
+			// <-timer.C: returns once the timer has fired (time passes when nothing else can run)
+			c := ch
+			self := in.curTid()
+			in.block("timer recv", func() bool {
+				st, _ := c.timer.F["state"].(string)
+				if st == "fired" {
+					return true
+				}
+				if st == "pending" && !in.inCond {
+					in.inCond = true
+					stuck := !in.othersRunnable(self)
+					in.inCond = false
+					return stuck
+				}
+				return false
+			})
+			c.timer.F["state"] = "fired"
+			if x.CommaOk {
+				return Tuple{in.zero(x.Type().(*types.Tuple).At(0).Type()), true}
+			}
+			return in.zero(x.Type())
+		}
 		if ch, ok := v.(*Chan); ok && ch != nil && ch.ctx == nil {
 			c := ch
 			in.block("chan recv", func() bool { return c.closed })
@@ -1376,7 +1399,20 @@ func (in *Interp) chanReady(fr *frame, ch *Chan) bool {
 	if ch.closed {
 		return true
 	}
+	if ch.timer != nil {
+		st, _ := ch.timer.F["state"].(string)
+		return st == "fired"
+	}
 	return ch.ctx != nil && in.ctxCancelled(fr, ch.ctx)
+}
+
+// timerPending: a timer channel that has neither fired nor been stopped.
+func timerPending(ch *Chan) bool {
+	if ch == nil || ch.timer == nil {
+		return false
+	}
+	st, _ := ch.timer.F["state"].(string)
+	return st == "pending"
 }
 
 func (in *Interp) selectOp(fr *frame, x *ssa.Select) Value {
@@ -1413,6 +1449,18 @@ func (in *Interp) selectOp(fr *frame, x *ssa.Select) Value {
 		}
 		return nil, false
 	}
+	// a pending timer may fire at any moment: one symbolic choice per select ("enough time
+	// has passed"); if it does not fire now it fires once nothing else in the program can run
+	for _, ch := range chans {
+		if timerPending(ch) {
+			v := in.tt.Var(fmt.Sprintf("time.passes.timer%d.%d", ch.id, len(in.path.inputs)), BoolSort)
+			in.path.inputs = append(in.path.inputs, InputVar{Name: v.name, Kind: "bool", T: v})
+			if in.branch(boolVal(v), "time passes: the timer fires") {
+				ch.timer.F["state"] = "fired"
+				in.emit("timer.fire", fmt.Sprintf("chan#%d", ch.id))
+			}
+		}
+	}
 	if r, ok := try(); ok {
 		return r
 	}
@@ -1421,14 +1469,38 @@ func (in *Interp) selectOp(fr *frame, x *ssa.Select) Value {
 		res[0] = normInt(^uint64(0), 64, true) // -1
 		return res
 	}
+	self := in.curTid()
 	in.block("select", func() bool {
 		for _, ch := range chans {
 			if in.chanReady(fr, ch) {
 				return true
 			}
 		}
+		// everything else is stuck: time passes and a pending timer fires
+		if !in.inCond {
+			in.inCond = true
+			stuck := !in.othersRunnable(self)
+			in.inCond = false
+			if stuck {
+				for _, ch := range chans {
+					if timerPending(ch) {
+						return true
+					}
+				}
+			}
+		}
 		return false
 	})
+	if r, ok := try(); ok {
+		return r
+	}
+	for _, ch := range chans {
+		if timerPending(ch) {
+			ch.timer.F["state"] = "fired"
+			in.emit("timer.fire", fmt.Sprintf("chan#%d", ch.id))
+			break
+		}
+	}
 	r, _ := try()
 	return r
 }
